@@ -441,12 +441,12 @@ theorem peak_ramp (k k' : Kind) : ∀ n a, peak k' (ramp k a n) = if k = k' ∧ 
 theorem peak_recurFrom (k : Kind) : ∀ more j, peak k (recurFrom more j) =
     match k with
     | .stack => stackBase + 5 * (j + more) + 5
-    | .blockRun => 2 + (j + more)
+    | .blockRun => 3 + (j + more)
     | .exprRun => 2 * (j + more) + 4
     | _ => 0 := by
   intro more
   induction more with
-  | zero => intro j; cases k <;> simp [recurFrom, peak]
+  | zero => intro j; cases k <;> simp [recurFrom, peak] <;> omega
   | succ m ih =>
     intro j
     cases k <;> simp [recurFrom, peak, ih] <;> omega
@@ -454,12 +454,12 @@ theorem peak_recurFrom (k : Kind) : ∀ more j, peak k (recurFrom more j) =
 theorem peak_padFrom (frame base : Nat) (k : Kind) : ∀ more j, peak k (padFrom frame base more j) =
     match k with
     | .stack => base + frame * (j + more) + frame
-    | .blockRun => 2 + (j + more)
+    | .blockRun => 3 + (j + more)
     | .exprRun => 2 * (j + more) + 4
     | _ => 0 := by
   intro more
   induction more with
-  | zero => intro j; cases k <;> simp [padFrom, peak]
+  | zero => intro j; cases k <;> simp [padFrom, peak] <;> omega
   | succ m ih =>
     intro j
     cases k <;> simp [padFrom, peak, ih, Nat.mul_add] <;> omega
